@@ -393,3 +393,56 @@ Inductive bop := BWrite (p : bytes) | BReset.
 Definition bstep (buf : bytes) (op : bop) : bytes :=
   match op with BWrite p => buf ++ p | BReset => [] end.
 Definition run_bops (ops : list bop) : bytes := fold_left bstep ops [].
+
+(* ---------- client-level configuration history and Clone ----------
+   client.go: Client.dumpOptions (a struct, by pointer), the running Dumper (Transport.Dump) and
+   whether that Dumper reads Client.dumpOptions itself ("linked") or a struct of its own
+   (Transport-level EnableDump(opts)).
+     CSetCommon o       SetCommonDumpOptions(o): nil Output inherited; the struct is replaced and a
+                        running Dumper is re-pointed at it
+     CEnableAll         EnableDumpAll: nothing if a Dumper runs, else a Dumper on the (default) struct
+     CEnableAllTo w     EnableDumpAllTo(w): Output of the struct := w, then EnableDumpAll
+     CDisableAll        DisableDumpAll
+     CTransportEnable o Client.EnableDump(o) = Transport.EnableDump: a new Dumper on o's own struct *)
+Inductive cop :=
+| CSetCommon (o : options) | CEnableAll | CEnableAllTo (w : writer) | CDisableAll
+| CTransportEnable (o : options).
+
+Record cstate := mkC { c_opts : option options; c_has : bool; c_linked : bool; c_own : option options }.
+
+Definition default_client_options : options :=
+  mkOpts (Some w_stdout) None None None None None None true true true true false.
+
+Definition cstep (st : cstate) (op : cop) : cstate :=
+  let cur := match c_opts st with Some o => o | None => default_client_options end in
+  let enable_all (o : options) :=
+    if c_has st then mkC (Some o) true (c_linked st) (c_own st)
+    else mkC (Some (new_dumper o)) true true (c_own st) in
+  match op with
+  | CSetCommon o =>
+      let o' := client_set_options (c_opts st) o in
+      mkC (Some o') (c_has st) (if c_has st then true else c_linked st) (c_own st)
+  | CEnableAll => enable_all cur
+  | CEnableAllTo w => enable_all (set_out cur (Some w))
+  | CDisableAll => mkC (c_opts st) false (c_linked st) (c_own st)
+  | CTransportEnable o => mkC (c_opts st) true false (Some (new_dumper o))
+  end.
+
+Definition c0 : cstate := mkC None false false None.
+Definition run_cops (ops : list cop) : cstate := fold_left cstep ops c0.
+
+(* the options the client-level Dumper works with; None: no client-level dump *)
+Definition in_force (st : cstate) : option options :=
+  if c_has st then (if c_linked st then c_opts st else c_own st) else None.
+
+(* Client.Clone: the struct is copied; the Dumper is cloned with a copy of what it reads; it is
+   re-pointed at the clone's struct only when the original's Dumper reads the original's struct *)
+Definition cclone (st : cstate) : cstate :=
+  mkC (c_opts st) (c_has st) (c_linked st) (if c_linked st then c_own st else in_force st).
+
+(* the guard reduced to "both exist": the clone's Dumper always gets the copy of the struct *)
+Definition cclone_unguarded (st : cstate) : cstate :=
+  match c_opts st with
+  | Some _ => mkC (c_opts st) (c_has st) true (c_own st)
+  | None => cclone st
+  end.
